@@ -31,9 +31,14 @@
                   body's indentation -> body code of an async def answers the parent.
      DedentCont   code on a continuation line left of (or at) the column of its enclosing
                   def/class keyword answers an outer scope.
-   AsyncColumn and DedentCont break the property text on code positions: they are the
-   known findings C18/ctx-body:*, excluded from CtxOK by the named predicate
-   KnownColumnDeviation and demonstrated by the (expected-to-fail) invariant CtxStrict. *)
+     LambdaInClass code inside a lambda written in a class body answers the scope around
+                  the class (the lambda's name has no tree_name; its parent_context is
+                  stripped of classes by FunctionValue.from_context).
+   AsyncColumn, DedentCont and LambdaInClass break the property text on code positions:
+   they are the known findings C18/ctx:*, excluded from CtxOK by the named predicate
+   KnownDeviation and demonstrated by the (expected-to-fail) invariant CtxStrict, whose
+   counterexample the harness reproduces on the real code.  CtxLiteral (expected to
+   fail as well) documents HeaderSelf.                                               *)
 EXTENDS Naturals, Sequences, FiniteSets, TLC, Json, SequencesExt
 
 ---------------------------------------------------------------------------
